@@ -297,6 +297,8 @@ def obs_to_coq(ob):
         return "BDead"
     if ob == "noscalar":
         return "BNoScalar"
+    if ob == "deerr":
+        return "BPanic"     # the model's serde never fails: any failure to deserialize is a mismatch
     if ob[0] == "err":
         return "BErr " + ob[1]
     if ob[0] == "o":
@@ -323,7 +325,7 @@ def parse_obs(line, names):
     t = line.split()
     if not t:
         raise HarnessFormatError(line)
-    if t[0] in ("dead", "noscalar") or line.strip() == "ok":
+    if t[0] in ("dead", "noscalar", "deerr") or line.strip() == "ok":
         return t[0]
     if t[0] == "panic":
         return "panic"
